@@ -268,6 +268,12 @@ func buildField(f encField) zapcore.Field {
 			fs[i] = buildField(f.Fields[i])
 		}
 		return zap.Dict(key, fs...)
+	case "errors":
+		es := make([]error, len(f.Errs))
+		for i := range f.Errs {
+			es[i] = buildErr(f.Errs[i])
+		}
+		return zap.Errors(key, es)
 	case "refl":
 		if f.J != nil {
 			return zap.Reflect(key, json.RawMessage(unhx(*f.J)))
